@@ -470,6 +470,15 @@ def reachable_from(eff: Effects, roots: List[FuncInfo]) -> List[FuncInfo]:
         for g in _table_functions(m, f):
             if g.qual not in seen:
                 st.append(g)
+        # an object of a private helper class built here: its methods run on behalf of f
+        if not isinstance(f.node, ast.Lambda):
+            for c in ast.walk(f.node):
+                if isinstance(c, ast.Call) and isinstance(c.func, ast.Name):
+                    t = m.lookup_target(m.resolve_dotted(f.module, f, c.func.id))
+                    if isinstance(t, ClassInfo) and t.name.startswith("_") and not t.name.startswith("__") and not m.is_visitor(t):
+                        for g in t.methods.values():
+                            if g.qual not in seen:
+                                st.append(g)
     return list(seen.values())
 
 
